@@ -453,12 +453,14 @@ class AbsEval:
         return st
 
     def edge_transfer(self, e: Edge, node: Node, st_in: State, st_out: State) -> Optional[State]:
-        if e.kind != "n":
-            return st_in
-        if node.kind == "test" and e.label in ("T", "F"):
+        # a labelled edge leaves a test that *completed* with that outcome, whatever kind of transfer it continues
+        # (a pending exception resuming after `if q is not None: ...` at the end of a finally body is still labelled F)
+        if node.kind == "test" and e.label in ("T", "F") and (e.kind == "n" or e.resume):
             return self.refine(node.ast, st_out, e.label == "T")
-        if node.kind == "case" and e.label in ("case", "nocase"):
+        if node.kind == "case" and e.label in ("case", "nocase") and (e.kind == "n" or e.resume):
             return self._case_edge(node, st_out, e.label == "case")
+        if e.kind != "n":
+            return st_out if e.resume else st_in
         return st_out
 
     def _case_edge(self, node: Node, st: State, taken: bool) -> Optional[State]:
